@@ -71,7 +71,12 @@ def run_fn(torch, U, scores, best, layout="contig"):
     ts = with_layout(torch, torch.tensor(scores, dtype=torch.float32), layout)
     if layout != "contig":
         tb = with_layout(torch, tb, layout)
-    out = U._reassign_precisions(tb, ts)
+    try:
+        out = U._reassign_precisions(tb, ts)
+    except Exception:
+        if layout == "contig":
+            raise
+        return []                    # the function refuses an equal-valued tensor in another layout: not a 0/1 matrix
     m = out.tolist()
     res = []
     for row in m:
@@ -184,6 +189,10 @@ def observe_refine(torch, U, m, prepare, cb=None):
             U.optimize_prec_assignment(m, "ne16")
     except AssertionError as e:
         return {"skip": "optimize_prec_assignment assertion: " + str(e)[:80]}
+    except tlc.MachineryError:
+        raise
+    except Exception as e:           # the refinement raises on a supported model: decided by the trace spec
+        return {"k": "raised", "skip": "raised", "msg": type(e).__name__ + ": " + str(e)[:120]}
     finally:
         U._compute_cost, U._reassign_precisions = o_cc, o_re
     after = {ln: m.summary()[ln]["w_precision"] for ln in layers}
@@ -437,6 +446,52 @@ class MultiBench:
         return {"k": "multi", "geo": geo, "tab": tab, "ownb": ownb, "owna": owna, "obs": obs}
 
 
+# ------------------------------------------------------------------------------------- 0-bit rows with pruned channels
+ZERO_CASES = [   # (precisions, widths of two conv3x3 layers, per-precision counts per layer; the last layer cannot prune)
+    ((0, 4, 8), (16, 16), [(4, 5, 7), (2, 6, 8)]),
+    ((0, 2, 4, 8), (16, 16), [(4, 3, 5, 4), (1, 5, 5, 5)]),
+    ((0, 2, 4, 8), (64, 32), [(16, 20, 20, 8), (8, 8, 8, 8)]),
+    ((0, 4, 8), (8, 16), [(1, 3, 4), (5, 5, 6)]),
+    ((0, 2, 4, 8), (16, 8), [(3, 6, 2, 5), (2, 2, 2, 2)]),
+    ((0, 4, 8), (32, 8), [(5, 20, 7), (0, 3, 5)]),
+]
+
+
+def run_zero_case(torch, U, case):
+    """Two conv3x3 layers, ascending precisions containing 0, power-of-two widths, trained-like alpha with channels
+    actually PRUNED (0 bit) and widths that the effective channel count does not divide."""
+    import torch.nn as nn
+    from plinio.methods.mps import MPS, MPSType, get_default_qinfo
+    from plinio.cost import ne16_latency
+    from plinio.methods.mps.nn.qtz import MPSPerChannelQtz
+    bits, widths, counts = case
+
+    class Net(nn.Module):
+        def __init__(self):
+            super().__init__()
+            self.l0 = nn.Conv2d(3, widths[0], 3, padding=1)
+            self.l1 = nn.Conv2d(widths[0], widths[1], 3, padding=1)
+
+        def forward(self, x):
+            return torch.relu(self.l1(torch.relu(self.l0(x))))
+
+    torch.manual_seed(7)
+    m = MPS(Net(), cost={"ne16": ne16_latency}, input_shape=(3, 6, 6), w_search_type=MPSType.PER_CHANNEL,
+            qinfo=get_default_qinfo(w_precision=tuple(bits), a_precision=(8,)))
+    q = {n.split(".")[1]: x for n, x in m.named_modules() if isinstance(x, MPSPerChannelQtz)}
+    pruned = 0
+    for i, ln in enumerate(("l0", "l1")):
+        cn = list(counts[i])
+        if len(q[ln].precision) < len(cn):                 # the output layer has no 0-bit row
+            cn = [cn[0] + cn[1]] + cn[2:]
+        elif 0 in bits:
+            pruned += cn[0]
+        q[ln].alpha.data = _trained_like(torch, tuple(cn), widths[i], i)
+    if pruned == 0:
+        raise tlc.MachineryError("zero-bit family: no pruned channel in the scenario")
+    return observe_refine(torch, U, m, prepare=True)
+
+
 def random_model_scenario(rng, big):
     bits = list(rng.choice(ASC_BITS) if rng.random() < 0.85 else rng.choice(OTHER_BITS))
     hi = 70 if big else 40
@@ -459,6 +514,8 @@ def run(tier: str, seed: int, replay=None) -> int:
         "counts compared after rounding to the nearest integer (|x-round x| <= 0.002); costs in 1/100 cycle with slack 1 + cost/1e5",
         "whole models: conv3x3 -> conv1x1 -> linear, activations 8 bit (NE16 requirement); depthwise layers not generated",
         "the searches and _compute_cost are observed by wrapping the two module-level helpers from outside",
+        "memory layout: every 2x3 input and every random input of the reassignment step is also run with scores / best in a non-contiguous layout (transposed view, every-second-column slice, column-major strides), result required to equal the contiguous one; alpha of random whole models and of the clean life-cycle model is stored in those layouts too",
+        "0-bit rows: six clean two-conv models (ascending tuples containing 0, power-of-two widths, trained-like alpha) with 1-16 channels actually pruned; finding F27's signature is restricted to widths that are not powers of two and to chosen counts that are integers up to 0.002",
         "several layers: chains of 1-2 (thorough: up to 3, 600 sampled 3-layer chains) refinable layers conv3x3 / conv1x1 / linear, widths 8 / 16 incl. equal widths, optional 2x2 pooling, first-layer inputs 3 (thorough: also 40) channels, precisions (4,8), trained-like alpha; announced costs parsed from the printed message, compared with get_cost in 1/100 cycle (slack 1 + cost/1e5); the per-layer cost tables come from the library's own per-layer cost function called by the harness",
         "life cycle: every pre-history of at most 2 (thorough: 3) public calls out of 12 (train, eval, forward, each single sampling option on/off, two temperatures, alpha write) on a clean model (conv3x3 8 and 16 channels, precisions (4,8), trained-like alpha with margin 3, so that F18/F27/F28 do not interfere); outcome compared with a fresh model holding the same alpha; Gumbel noise seeded",
     ]
@@ -467,7 +524,10 @@ def run(tier: str, seed: int, replay=None) -> int:
 
     if replay:
         sc = json.load(open(replay))["scenario"]
-        if sc["kind"] == "multi":
+        if sc["kind"] == "zero":
+            c_ = sc["case"]
+            tr = run_zero_case(torch, U, (tuple(c_[0]), tuple(c_[1]), [tuple(x) for x in c_[2]]))
+        elif sc["kind"] == "multi":
             tr = MultiBench(torch, U).run(sc["ml"])
         elif sc["kind"] == "mlife":
             tr = LifeBench(torch, U).run(sc["hist"], layout=sc.get("lay", "contig"))
@@ -607,7 +667,7 @@ def run(tier: str, seed: int, replay=None) -> int:
     R.extra["alpha_layout_runs"] = sum(1 for s_ in lsc if s_.get("lay"))
     R.sample({"scenario": lsc[-1], "observed": {"pre": ltr[-1]["pre"],
                                                 "chosen": [l["bestu"] for l in ltr[-1].get("obs", {"layers": []})["layers"]]}})
-    R.validate("ReassignTrace", "ReassignTrace", ltr, lsc, nontrivial=lambda s_: len(s_["hist"]) > 0,
+    R.validate("ReassignTrace", "ReassignTrace", ltr, lsc, nontrivial=lambda s_: len(s_["hist"]) > 0 or bool(s_.get("lay")),
                label="sampling life cycle", workers=8, env=JENV)
 
     # ---- 3c. several refinable layers with independent geometry (equal widths included)
@@ -630,7 +690,9 @@ def run(tier: str, seed: int, replay=None) -> int:
     mtr2, msc2, mskip = [], [], 0
     for ml_ in chains:
         tr = mb.run(ml_)
-        if "skip" in tr:
+        if tr.get("k") == "raised":
+            tr = {"k": "raised", "msg": tr["msg"]}
+        elif "skip" in tr:
             mskip += 1
             continue
         mtr2.append(tr)
@@ -645,12 +707,30 @@ def run(tier: str, seed: int, replay=None) -> int:
     R.validate("ReassignTrace", "ReassignTrace", mtr2, msc2, nontrivial=lambda s_: len(s_["ml"]) >= 2,
                label="several refinable layers", workers=8, env=JENV)
 
+    # ---- 3d. precision tuples containing 0 with channels actually pruned (clean widths / alphas)
+    ztr, zsc = [], []
+    for case in ZERO_CASES:
+        tr = run_zero_case(torch, U, case)
+        if tr.get("k") == "raised":
+            tr = {"k": "raised", "msg": tr["msg"]}
+        elif "skip" in tr:
+            continue
+        ztr.append(tr)
+        zsc.append({"kind": "zero", "case": [list(case[0]), list(case[1]), [list(c_) for c_ in case[2]]]})
+    R.extra["zero_bit_pruned_models"] = len(ztr)
+    R.validate("ReassignTrace", "ReassignTrace", ztr, zsc, label="0-bit rows with pruned channels", workers=4, env=JENV)
+
     # ---- 4. whole models
     n_models = 260 if thorough else 36
     mtr, msc, skipped = [], [], {}
     for i in range(n_models):
         sc = random_model_scenario(rng, thorough and i % 3 == 0)
         tr = run_model(torch, U, sc)
+        if tr.get("k") == "raised":
+            sc["changed"] = True
+            mtr.append({"k": "raised", "msg": tr["msg"]})
+            msc.append(sc)
+            continue
         if "skip" in tr:
             skipped[tr["skip"]] = skipped.get(tr["skip"], 0) + 1
             continue
